@@ -171,17 +171,34 @@ let ddec_handler args =
   | _ :: st :: k :: hex :: _ -> let (sc, dd) = parse_schema st in dec_result sc dd (int_of_string k) (bytes_of_hex hex)
   | _ -> "?bad-DDEC"
 
+(* DRT sid schema def value expect [hex …] [c=<k,k,…>]: when a choice list is given, the FIRST re-framed encoding is not
+   taken from the case line but computed by the extracted DeriveReframe.reframe_with (the domain of theorem
+   C09_roundtrip_reframed) and echoed as `R<hex>:<outcome>`; the harness echoes the hex of the case line in the same
+   place, so the generator's reference re-framer is compared with the Coq definition byte for byte. *)
 let drt_handler args =
   match args with
-  | _ :: st :: k :: v :: _expect :: reframed ->
+  | _ :: st :: k :: v :: _expect :: rest ->
       let (sc, dd) = parse_schema st in
       let k = int_of_string k in
       let value = value_of dd k v in
+      let is_choice h = String.length h >= 2 && String.sub h 0 2 = "c=" in
+      let choices = List.find_opt is_choice rest in
+      let reframed = List.filter (fun h -> not (is_choice h)) rest in
       (match gen_encode sc (nat_of_int k) value with
        | None -> "refused"
        | Some cs ->
            let bs = flat cs in
-           String.concat ";" (hex_or_dash bs :: dec_result sc dd k bs :: List.map (fun h -> dec_result sc dd k (bytes_of_hex h)) reframed))
+           let plain h = dec_result sc dd k (bytes_of_hex h) in
+           let outs =
+             (match choices, reframed with
+              | Some c, _ :: more ->
+                  let body = String.sub c 2 (String.length c - 2) in
+                  let ch = if body = "" || body = "-" then [] else List.map n_of_string (String.split_on_char ',' body) in
+                  (match reframe_with ch sc (nat_of_int k) value with
+                   | Some rb -> Printf.sprintf "R%s:%s" (hex_or_dash rb) (dec_result sc dd k rb)
+                   | None -> "Rrefused") :: List.map plain more
+              | _, l -> List.map plain l) in
+           String.concat ";" (hex_or_dash bs :: dec_result sc dd k bs :: outs))
   | _ -> "?bad-DRT"
 
 let dcompat_handler args =
